@@ -88,6 +88,8 @@ class C14(Prop):
                     kids.append([alias, {"d": entry}])
             padd = rng.choice([[], [], ["default"], ["pp"], ["default", "pp"]])
             sadd = rng.choice([[], ["ss"], ["default"], ["default", "ss"]])
+            if i % 2:
+                sadd = [{"ss": "de", "pp": "fault"}.get(n, n) for n in sadd]      # (explicit names that are pieces of "default")
             if "default" in padd and "default" in sadd:
                 sadd = [n for n in sadd if n != "default"]
             classes.append({"id": i, "children": {"d": kids}, "fails": rng.random() < 0.03,
